@@ -854,26 +854,36 @@ func indexAddr(fr *frame, instr *ssa.IndexAddr) Val {
 	return &arr[i]
 }
 
+// widen64 extends an index value to a 64-bit term per its static type.
+func widen64(idx Val, it types.Type) *Term {
+	w, signed, _ := intInfo(it)
+	t := toBV(idx, w)
+	if w < 64 {
+		if signed {
+			return mkSext(t, 64)
+		}
+		return mkZext(t, 64)
+	}
+	return t
+}
+
 // boundsIndex checks 0 <= idx < n (fault otherwise) and returns a concrete index.
 func boundsIndex(fr *frame, instr ssa.Instruction, idx Val, it types.Type, n int) int64 {
 	if c, ok := idx.(int64); ok {
+		if _, signed, _ := intInfo(it); !signed && c < 0 {
+			c = math.MaxInt64 // huge unsigned
+		}
 		if c < 0 || c >= int64(n) {
 			fr.fault(instr, "index", fmt.Sprintf("index out of range [%d] with length %d", c, n))
 		}
 		return c
 	}
-	w, signed, _ := intInfo(it)
-	t := toBV(idx, w)
-	var ok *Term
-	if signed {
-		ok = mkAnd(mkCmp(OSle, mkBV(0, w), t), mkCmp(OSlt, t, mkBV(uint64(n), w)))
-	} else {
-		ok = mkCmp(OUlt, t, mkBV(uint64(n), w))
-	}
+	t := widen64(idx, it)
+	ok := mkCmp(OUlt, t, mkBV(uint64(n), 64))
 	if !in.ex.branch(in.path, ok) {
 		fr.fault(instr, "index", fmt.Sprintf("index out of range [sym] with length %d", n))
 	}
-	return concretize(t, w, 0, int64(n-1))
+	return concretize(t, 64, 0, int64(n-1))
 }
 
 func indexOp(fr *frame, instr *ssa.Index) Val {
@@ -903,15 +913,9 @@ func strIndex(fr *frame, instr ssa.Instruction, s Val, idx Val, it types.Type) V
 			return s.b[c]
 		}
 	}
-	w, signed, _ := intInfo(it)
-	t := toBV(idx, w)
-	var ok *Term
-	if signed {
-		ok = mkAnd(mkCmp(OSle, mkBV(0, w), t), mkCmp(OSlt, t, mkBV(uint64(n), w)))
-	} else {
-		ok = mkCmp(OUlt, t, mkBV(uint64(n), w))
-	}
-	if !in.ex.branch(in.path, ok) {
+	t := widen64(idx, it)
+	w := 64
+	if !in.ex.branch(in.path, mkCmp(OUlt, t, mkBV(uint64(n), 64))) {
 		fr.fault(instr, "index", fmt.Sprintf("index out of range [sym] with length %d", n))
 	}
 	if cs, isC := s.(string); isC {
